@@ -300,8 +300,12 @@ fn compaction_reorg_scenario_once(seed: u64, depth: usize, dir: &str, headers_fi
 	// days); a node that cannot serve an archive is not judged here.
 	{
 		let c = chain.as_ref().unwrap();
-		let fdir = format!("{}-follower", dir);
-		let _ = std::fs::remove_dir_all(&fdir);
+		// the node unpacks an archive in "<parent of its data directory>/tmp": a directory level of its own, or two
+		// scenarios running side by side would share that sandbox
+		let froot = format!("{}-follower", dir);
+		let fdir = format!("{}/db", froot);
+		let _ = std::fs::remove_dir_all(&froot);
+		let _ = std::fs::create_dir_all(&fdir);
 		let res = (|| -> Result<(), ScenarioFailure> {
 			let ah = c.txhashset_archive_header().map_err(|e| fail("follower;archive_header_unavailable", format!("{:?}", e)))?;
 			let head = c.head().map_err(|e| fail("follower;head_unreadable", format!("{:?}", e)))?;
@@ -334,7 +338,7 @@ fn compaction_reorg_scenario_once(seed: u64, depth: usize, dir: &str, headers_fi
 			compare(&f, &mut h, "follower_at_the_tip", &mut stats)?;
 			Ok(())
 		})();
-		let _ = std::fs::remove_dir_all(&fdir);
+		let _ = std::fs::remove_dir_all(&froot);
 		res?;
 	}
 	if headers_first {
